@@ -32,7 +32,7 @@ class Fn(dict):
 
 
 _TOKEN = re.compile(
-    r"\s*(<<|>>|\|->|:>|@@|\[|\]|\{|\}|\(|\)|,|-?\d+|\"(?:[^\"\\]|\\.)*\"|[A-Za-z_][A-Za-z0-9_]*)"
+    r"\s*(<<|>>|\|->|:>|@@|\[|\]|\{|\}|\(|\)|,|-?\d+\.\.-?\d+|-?\d+|\"(?:[^\"\\]|\\.)*\"|[A-Za-z_][A-Za-z0-9_]*)"
 )
 
 
@@ -117,6 +117,9 @@ class _Parser:
             return False
         if tok[0] == '"':
             return tok[1:-1].replace('\\"', '"').replace("\\\\", "\\")
+        if ".." in tok:   # an interval a..b printed unexpanded
+            lo, hi = tok.split("..")
+            return frozenset(range(int(lo), int(hi) + 1))
         if tok[0] == "-" or tok[0].isdigit():
             return int(tok)
         raise TlaParseError(f"unexpected token {tok!r} at {self.pos}")
